@@ -31,7 +31,11 @@ def run(ctx):
     # buffers of 2^31-5 .. 2^32+8005 bytes (sparse zero-page mappings, -O2 build) run beside the rest
     ctx.fan_parallel([((asan, "random", 20000 if th else 240), dict(timeout=60, max_workers=11)),
                       ((plain, "huge", 6 if th else 5), dict(chunk=1, timeout=900, max_workers=6, prefix="plain."))])
+    # the CPU-feature test on four emulated CPU models (SSE4.1 x SSE4.2 bits of cpuid leaf 1 rewritten under CPUID faulting); skipped where the kernel/CPU lacks CPUID faulting
+    ctx.fan(plain, "cpuid", 1, chunk=1, timeout=60, prefix="plain.")
     s = ctx.stats
+    if s.get("plain.cpuid.faulting_unavailable_on_this_machine"):
+        ctx.assumptions.append("CPUID faulting is not available here: the library's decoding of the cpuid feature bits was NOT exercised on emulated CPU models")
     ev = s.get("calls.mtbl_crc32c", 0)
     if not s.get("host.sse42_supported"):
         ctx.assumptions.append("host CPU lacks SSE4.2: the hardware implementation was NOT covered by this run")
@@ -46,5 +50,5 @@ def run(ctx):
                 "calls.forced_slicing": 70, "plain.huge.buffers_ge_2GiB": 5, "nosse.dispatch.runs_as_cpu_without_sse42": 4, "nosse.dispatch.selected.slicing": 4, "nosse.calls.mtbl_crc32c": 10000,
                 **({"plain.huge.buffers_ge_32GiB": 1} if th else {})},
         exhaustive=False,
-        extra={"implementations_covered": ["mtbl_crc32c", "my_crc32c_slicing"] + (["my_crc32c_sse42"] if s.get("host.sse42_supported") else []),
+        extra={"cpu_models_emulated_for_the_feature_test": s.get("plain.cpuid.models_emulated", 0), "implementations_covered": ["mtbl_crc32c", "my_crc32c_slicing"] + (["my_crc32c_sse42"] if s.get("host.sse42_supported") else []),
                "exhaustive_subspace": "lengths 0..1100 x alignments 0..7 (per content variant)"})
